@@ -413,6 +413,8 @@ ErrorCode Library::write_oas(const char* filename, double circle_tolerance,
     OasisState state = {};
     state.circle_tolerance = circle_tolerance;
     state.config_flags = config_flags;
+    // Polygons created on the fly from paths that are not stored as PATH
+    Array<Polygon*> path_polygons = {};
 
     if (compression_level > 9) compression_level = 9;
 
@@ -641,9 +643,11 @@ ErrorCode Library::write_oas(const char* filename, double circle_tolerance,
                     Polygon* poly = *poly_p++;
                     err = poly->to_oas(out, state);
                     if (err != ErrorCode::NoError) error_code = err;
-                    poly->clear();
-                    free_allocation(poly);
                 }
+                // The string values of their properties are referenced from
+                // state.property_value_array until the PROPSTRING table is
+                // written: these polygons must outlive it.
+                path_polygons.extend(array);
                 array.clear();
             }
         }
@@ -663,9 +667,11 @@ ErrorCode Library::write_oas(const char* filename, double circle_tolerance,
                     Polygon* poly = *poly_p++;
                     err = poly->to_oas(out, state);
                     if (err != ErrorCode::NoError) error_code = err;
-                    poly->clear();
-                    free_allocation(poly);
                 }
+                // The string values of their properties are referenced from
+                // state.property_value_array until the PROPSTRING table is
+                // written: these polygons must outlive it.
+                path_polygons.extend(array);
                 array.clear();
             }
         }
@@ -909,6 +915,11 @@ ErrorCode Library::write_oas(const char* filename, double circle_tolerance,
     text_string_map.clear();
     state.property_name_map.clear();
     state.property_value_array.clear();
+    for (uint64_t i = 0; i < path_polygons.count; i++) {
+        path_polygons[i]->clear();
+        free_allocation(path_polygons[i]);
+    }
+    path_polygons.clear();
     return error_code;
 }
 
